@@ -17,6 +17,8 @@ git -C /repo worktree add -q --detach "$W" "$base" || exit 2
 cp /repo/Cargo.lock "$W/"
 feat=""
 grep -q "features serde\|--features=serde\|features \"serde\"" "$src/meta.json" && feat="--features serde"
+# a change that only shows without debug assertions says so in its demo command
+grep -q -- "--release" "$src/meta.json" && feat="$feat --release"
 demo="demo_$(echo "$id" | tr 'A-Z-' 'a-z_')"
 cp "$src/demo.rs" "$W/tests/$demo.rs"
 ( cd "$W" && timeout 600 cargo test --offline $feat --test "$demo" > "$OUT/demo_clean.log" 2>&1 ); clean=$?
